@@ -202,12 +202,18 @@ CLAIMS["C20"] = dict(
          "Per run, on SIR/SEIR/SIR_norm and random bounded models (parameter x state, parameter x parameter and squared-parameter rates tagged): jtj vs the sum of "
          "outer products of finite-difference sensitivities of reference solutions, symmetry, eigenvalues; hessian vs central differences of the reference gradient "
          "(any difference is a violation); ode_and_forwardforward pointwise vs the Lean model fed with the evaluators' values and vs an independent second-order "
-         "system whose derivatives are taken in the harness from get_ode_eqn().",
+         "system whose derivatives are taken in the harness from get_ode_eqn(). hessian / jtj with full_output=True are judged by the same direct oracle and their "
+         "dictionaries entry by entry (JTJ, grad, H, resid, sens); every case runs a session on the live loss object (same theta asked again after a write into the "
+         "returned matrix, after costIV / residualIV / diff_lossIV / sensitivityIV moved the initial state and back, after a non-target parameter of the shared ode "
+         "changed and back, after scrambling the ode, another theta, another loss object on the same ode, a deepcopy; theta as list / tuple / array / numpy scalars / "
+         "omitted; constructor arguments as list / tuple / float or int arrays), each evaluation judged against the oracle of the state current at that moment, "
+         "returned arrays kept and compared at the end; the Lean sensToJtj / hessian are functions of their explicit arguments (no instance state).",
     note="Assumed (as in C13): integrating a sensitivity system yields the derivative of the solution; scipy integrators within tolerance; finite-difference "
          "Hessian of the reference cost accurate to ~1e-6 relative (comparisons at 1e-3). Defects found and repaired in /repo: sign / weight of the second-order term "
          "(0f0d14a), per-observation weight vector for one observed state (62436c6), missing mixed state-parameter and parameter-parameter second derivatives in the "
          "forward-forward system (proposed_fixes/C20-hessian-mixed-terms.diff: new evaluator grad_grad; was known finding C20-hessian-mixed-terms, now a fix; a regression "
-         "is reported as VIOLATION with signature hessian:missing-mixed-terms / forwardforward:rhs-not-second-order-equation); order-related failures were the C07 "
+         "is reported as VIOLATION with signature hessian:missing-mixed-terms / forwardforward:rhs-not-second-order-equation); sens_to_jtj / sens_to_grad scaled the caller's "
+         "sensitivity array in place, so a second call on the same array applied the weights twice (06ea049, proposed_fixes/C20-sens-accumulators-modify-argument.diff); order-related failures were the C07 "
          "index-order repair (signatures *:sens-index-order). Not claimed: ode_and_forwardforward_jacobian is only the block-diagonal approximation the code documents.",
     technique="Lean 4: finite-sum algebra and reshape/transpose index arithmetic, Matrix.posSemidef_conjTranspose_mul_self, HasDerivAt product rule, decide for the "
               "history counterexamples + model/code correspondence + finite-difference oracle + independent symbolic second-order system")
@@ -286,7 +292,12 @@ CLAIMS["C17"] = dict(
          "The model is tied to the code on every run by replaying the recorded trial stream of real ABC runs (rejection, tolerance list, quantile, "
          "MNN, continue) through the Lean driver (accept/reject decisions, distances, weights, tolerances, assertions, name binding), and the "
          "property itself is decided on the real attributes by a Lean-independent oracle (scipy prior density > 0, cost recomputed by a loss object "
-         "built from scratch equals abc.dist to 1e-9 and is below the generation's tolerance, weights positive finite, tolerances non-increasing).",
+         "built from scratch equals abc.dist to 1e-9 and is below the generation's tolerance, weights positive finite, tolerances non-increasing). "
+         "Histories on one ABC object: a fresh get_posterior_sample reads nothing of the previous state (get_forgets_state), a continued run reads exactly N and "
+         "final_tol - the stored population enters only through the trial stream (continue_reads_only_N_finalTol, genLoop_ignores_initial_dist). Per run the tolerance "
+         "is handed over as float / int / numpy float64, float32, int64 scalars / inf / next_tol / list / tuple / float or int arrays, every stored distance is compared "
+         "with the tolerance RECORDED for its generation and with the one APPLIED (which must be the same number), sequences contain a second fresh run, a second ABC "
+         "object on the same loss object, a deepcopy continued one generation, and arrays read after every call are kept and compared later.",
     note="Assumed/trusted: np.quantile(l,q) <= max(l) (proved for the linear-interpolation definition, and the real np.quantile is compared with that "
          "definition to 1e-12 on every generation); positivity of the multivariate-normal kernel density (w2 > 0, observed on every accepted trial); "
          "prior densities >= 0 (observed); the recomputation oracle relies on pygom's integrator and loss kernels through a fresh loss object (C02/C06/C14). "
@@ -304,7 +315,11 @@ CLAIMS["C18"] = dict(
          "(fit_rejects_bad_lengths). Tied to the code on every run: scipy.optimize.minimize as seen from base_loss is wrapped and the bounds array, "
          "method, start, fun and jac it receives are compared with the Lean driver exactly; the assumed optimiser contract is observed on every call; "
          "the property itself is decided by a Lean-independent oracle on real fits over catalogue and random models and five loss classes "
-         "(result inside the box exactly, recomputed cost(result) <= cost(x)(1+1e-9), fit(theta*) = theta* to 1e-5).",
+         "(result inside the box exactly, recomputed cost(result) <= cost(x)(1+1e-9), fit(theta*) = theta* to 1e-5), also for SEQUENCES of fit calls on one loss "
+         "object (other boxes excluding the earlier optimum, sub-boxes, other starts, interludes on the shared ode, deepcopy, full_output=True; each call judged with its "
+         "own box and start, the last repeated on a fresh object) and for x / lb / ub handed over as list / tuple / float array / numpy scalars / integer list, tuple, "
+         "array and numpy ints (integer-valued bounds with the start or the generating parameters in the top or bottom unit slice) / None or inf upper entries; "
+         "Fit.fit has no instance state and its bounds are rationals whatever container carried them.",
     note="ASSUMED (not proved): scipy's L-BFGS-B honours its bounds, never returns an objective above the start's when it is handed the true gradient "
          "(with a wrong gradient it does: its line search may end on a warning and the step is accepted), and stops at a start whose "
          "projected gradient is below pgtol = 1e-5. These are hypotheses (BoxDescent, StopsAtStationary) of the Lean theorems and are observed, "
